@@ -407,7 +407,14 @@ func c18Exec(t testing.TB, w *vx.W, cs c18Case) {
 		m.observe(h.settle())
 		time.Sleep(40 * time.Second)
 		m.observe(h.settle())
-		if !closedAny {
+		// a retry whose back-off expired during the wait may have dialled a new connection
+		anyUsable := false
+		for _, c := range h.connList() {
+			if c.usable() {
+				anyUsable = true
+			}
+		}
+		if !closedAny && !anyUsable {
 			break
 		}
 	}
@@ -567,7 +574,7 @@ func c18Gen(cfg string, depth int, o c18GenOpts, prefix []string, yield func(c18
 
 func TestVerif_C18(t *testing.T) {
 	vx.Run(t, "C18", func(c *vx.Ctx) {
-		depth := vx.Pick(c, 4, 5)
+		depth := vx.Pick(c, 4, 6)
 		c.Rule(fmt.Sprintf("every statically legal sequence of 1..%d events (shortest first) over {Q / Qr / Qo: new request without body / with a replayable body / with a one-shot body (<=3), G<conn><L><code>: GOAWAY with last-stream-id L in {0,1,3,5,2^31-1} and code NO_ERROR or ENHANCE_YOUR_CALM (<=2 per case, a second one never raises L), E<conn><j> response with END_STREAM on the j-th stream of the connection, R<conn><j> RST_STREAM, X<conn> the server closes the connection} on up to 3 connections, with and without MAX_CONCURRENT_STREAMS=1 (pooled, and with StrictMaxConcurrentStreams so that requests wait on the connection that receives the GOAWAY), plus seeded prefixes; a real Transport in its own synctest bubble, new connections are greeted with SETTINGS at once, 1.5 s of fake time pass after every event (retry back-off), and at the end of every case the server side closes all connections; a case is non-trivial when all its events were applicable at run time", depth))
 		c.Assume("scope note of the design: the first stream of a connection (id 1) above the last-stream-id of a GOAWAY that carries an error code is deliberately not retried by the Transport (setGoAway: \"retrying the request on a new one probably isn't going to work\"); for it only \"an error is delivered, no duplicate\" is required")
 		c.Assume("a RoundTrip error counts as reported-retryable when the Transport's own canRetryError accepts it or it wraps the GOAWAY / unusable-connection cause (one-shot bodies cannot be replayed)")
